@@ -21,6 +21,12 @@ FN_INPUT = {"u_to_euler": "U", "u_to_rod": "U", "u_to_ubi": "Ucell", "ubi_to_u":
             "ubi_to_u_and_eps": "ubicell", "euler_to_u": "euler", "ub_to_u_b": "ub",
             "Umis": "umis", "ubi_to_u_b": "ubi"}
 
+# public parameter names (frozen from the pinned tree): the calling convention is part of what a client may vary
+KWNAMES = {"u_to_euler": ["U_matrix"], "u_to_rod": ["U_matrix"], "u_to_ubi": ["U_matrix", "unit_cell"],
+           "ubi_to_u": ["ubi_matrix"], "ubi_to_u_and_eps": ["ubi_matrix", "unit_cell"],
+           "euler_to_u": ["phi1", "PHI", "phi2"], "ub_to_u_b": ["UB_matrix"], "ubi_to_u_b": ["ubi_matrix"],
+           "Umis": ["umat_1", "umat_2", "crystal_system"]}
+
 VALID_ASSIGN = ["T", "F"]
 INVALID_ASSIGN = ["int0", "int1", "int2", "int-1", "f0", "f1", "None", "sTrue", "sFalse",
                   "sEmpty", "sYes", "b1", "list", "listT", "tuple", "dict", "object",
@@ -415,6 +421,7 @@ def generate(rng, tier, index):
             inp["container"] = rng.weighted(conts)
         elif inp["cls"] == "euler" and not inp.get("malformed"):
             inp["container"] = rng.weighted([("float", 4), ("npfloat64", 1)])
+        inp["callstyle"] = rng.weighted([("positional", 5), ("keyword", 2), ("mixed", 1)])
         inputs.append(inp)
     # functions that can consume each input (same function name, either module)
     by_fn = {}
@@ -670,7 +677,14 @@ def execute(trace):
             sys.settrace(glob)
         try:
             try:
-                value = fn(*args)
+                style = inputs[iid].get("callstyle", "positional")
+                names = KWNAMES.get(fname)
+                if style == "positional" or not names or len(names) != len(args):
+                    value = fn(*args)
+                elif style == "keyword":
+                    value = fn(**dict(zip(names, args)))
+                else:
+                    value = fn(args[0], **dict(zip(names[1:], args[1:])))
                 outcome = "ok"
             except ValueError as e:
                 outcome = "ValueError"
@@ -774,6 +788,7 @@ def execute(trace):
                         outcome, value, _, _ = call(fk, iid)
                         count("tt.%s|call|%s|%s" % (int(on), fk, cls_tag))
                         count("container.%s" % inputs[iid].get("container", "n/a"))
+                        count("callstyle.%s" % inputs[iid].get("callstyle", "positional"))
                         if outcome != "ok":
                             count("fault.exception_out_of_guarded_call")
                         events.append([opi, "call", fk, iid, outcome, core.digest(canon_value(value))[:16]])
@@ -911,6 +926,8 @@ def shrink_candidates(trace):
             s["fn"] = inp["fn"]
             if "container" in inp:
                 s["container"] = inp["container"]
+            if "callstyle" in inp:
+                s["callstyle"] = inp["callstyle"]
             t["inputs"][i] = s
             yield t
 
